@@ -16,7 +16,7 @@ from vlib.shrink import shrink_seq
 
 ID = "C01"
 LEVEL = "exploration"
-BUDGET = {"quick": 75, "thorough": 900}
+BUDGET = {"quick": 200, "thorough": 1200}
 RULE = (
     "case = (encoder in {PVL, ODL, PDS3, ISIS}, encoder options, module spec "
     "generated for that dialect: nested groups/objects, duplicate keys, None, bool, "
